@@ -9,6 +9,7 @@ CONSTANTS
   Watch = "poll"
   AncVals = {"nil", "B"}
   Fulls = {FALSE, TRUE}
+  InitDisks = {"A"}
   Variant = "code"
 SPECIFICATION Spec
 INVARIANTS
@@ -18,4 +19,5 @@ INVARIANTS
   C21_EndpointsAgree
   C21_NoResidue
   C21_BaselineChain
+  C21_BaselineConsistent
 CHECK_DEADLOCK TRUE
